@@ -55,6 +55,9 @@ pub struct MarketEnv<const ASSETS: usize, const LEVELS: usize = 10> {
     transactions: Vec<Event<MarketOrderId>>,
     /// Current level 2 market data
     level_2_data: [Level2Data<LEVELS>; ASSETS],
+    /// Verification hook: instructions of the last step, in processing order
+    #[cfg(bourse_verif)]
+    verif_schedule: Vec<(u8, MarketOrderId, Option<Price>, Option<Vol>)>,
     /// Level 2 data history
     level_2_data_records: [Level2DataRecords<LEVELS>; ASSETS],
 }
@@ -83,6 +86,8 @@ impl<const ASSETS: usize, const LEVELS: usize> MarketEnv<ASSETS, LEVELS> {
             market,
             trade_vols: array::from_fn(|_| Vec::new()),
             transactions: Vec::new(),
+            #[cfg(bourse_verif)]
+            verif_schedule: Vec::new(),
             level_2_data,
             level_2_data_records: array::from_fn(|_| Level2DataRecords::new()),
         }
@@ -113,6 +118,22 @@ impl<const ASSETS: usize, const LEVELS: usize> MarketEnv<ASSETS, LEVELS> {
 
         let mut transactions = mem::take(&mut self.transactions);
         transactions.shuffle(rng);
+
+        #[cfg(bourse_verif)]
+        {
+            self.verif_schedule = transactions
+                .iter()
+                .map(|e| match e {
+                    Event::New { order_id } => (0, *order_id, None, None),
+                    Event::Cancellation { order_id } => (1, *order_id, None, None),
+                    Event::Modify {
+                        order_id,
+                        new_price,
+                        new_vol,
+                    } => (2, *order_id, *new_price, *new_vol),
+                })
+                .collect();
+        }
 
         for (i, t) in transactions.into_iter().enumerate() {
             self.market
@@ -332,6 +353,29 @@ impl<const ASSETS: usize, const LEVELS: usize> MarketEnv<ASSETS, LEVELS> {
     /// Reference to current level-2 market data
     pub fn level_2_data(&self) -> &[Level2Data<LEVELS>; ASSETS] {
         &self.level_2_data
+    }
+
+    /// Verification hook: the queued instructions (kind, order-id, new price, new vol)
+    #[cfg(bourse_verif)]
+    pub fn verif_pending(&self) -> Vec<(u8, MarketOrderId, Option<Price>, Option<Vol>)> {
+        self.transactions
+            .iter()
+            .map(|e| match e {
+                Event::New { order_id } => (0, *order_id, None, None),
+                Event::Cancellation { order_id } => (1, *order_id, None, None),
+                Event::Modify {
+                    order_id,
+                    new_price,
+                    new_vol,
+                } => (2, *order_id, *new_price, *new_vol),
+            })
+            .collect()
+    }
+
+    /// Verification hook: instructions processed by the last step, in processing order
+    #[cfg(bourse_verif)]
+    pub fn verif_schedule(&self) -> &Vec<(u8, MarketOrderId, Option<Price>, Option<Vol>)> {
+        &self.verif_schedule
     }
 
     #[cfg(test)]
